@@ -187,18 +187,39 @@ Fixpoint callees_of (f : string) (cs : list (string * list string)) : list strin
 Definition callers_of (f : string) : list string :=
   map fst (filter (fun c => str_in f (snd c)) calls).
 
-(* functions that run only with sdsmu held: every (syntactic) caller is
-   itself in the set or is createStructDesc *)
-Definition locked_fns_q : list (string * string) :=   (* (qualified name, name at call sites) *)
-  [("newStructDescAndPrefetch", "newStructDescAndPrefetch"); ("prefetchSubStructDesc", "prefetchSubStructDesc");
-   ("fetchStructDesc", "fetchStructDesc"); ("newStructDesc", "newStructDesc");
-   ("structDesc.fromDefsFields", "fromDefsFields"); ("tField.fromDefsField", "fromDefsField");
-   ("newTType", "newTType"); ("updateListAppendFunc", "updateListAppendFunc");
-   ("updateMapAppendFunc", "updateMapAppendFunc"); ("initOrGetMapTmpVarsPool", "initOrGetMapTmpVarsPool");
-   ("commitPending", "commitPending"); ("rollbackPending", "rollbackPending")].
-Definition locked_fns : list string := map fst locked_fns_q.
+(* functions that run only with sdsmu held.  Computed, not listed: U is what the entry points reach
+   in the syntactic call graph without going through createStructDesc (call sites name methods
+   by their bare name, so a callee stands for every function or method of that name: U is an
+   over-approximation); a function is locked when it is not in U.  Extracting a helper out of a
+   locked function keeps it locked; calling a locked function from unlocked code does not. *)
+Definition has_base (q b : string) : bool :=
+  String.eqb q b
+  || (let lq := String.length q in let lb := S (String.length b) in
+      Nat.leb lb lq && String.eqb (String.substring (lq - lb) lb q) ("." ++ b)).
+Definition all_fns : list string := map fst calls.
+(* entry points: the exported package-level functions (reflect.go: EncodedSize, Append, Decode) *)
+Definition is_upper (a : Ascii.ascii) : bool :=
+  let n := Ascii.nat_of_ascii a in Nat.leb 65 n && Nat.leb n 90.
+Definition exported_fn (q : string) : bool :=
+  match q with
+  | String.String a _ => is_upper a && negb (existsb (fun f => negb (String.eqb f q) && has_base q f) all_fns)
+                         && match String.index 0 "." q with None => true | Some _ => false end
+  | String.EmptyString => false
+  end.
+Definition entry_points : list string := filter exported_fn all_fns.
+Definition reach_step (u : list string) : list string :=
+  u ++ filter (fun q => negb (str_in q u)
+                        && existsb (fun p => negb (String.eqb p "createStructDesc")
+                                             && existsb (has_base q) (callees_of p calls)) u) all_fns.
+Fixpoint iter {A : Type} (n : nat) (f : A -> A) (x : A) : A :=
+  match n with O => x | S k => iter k f (f x) end.
+Definition unlocked_fns : list string := iter (List.length all_fns) reach_step entry_points.
+Definition locked_fns : list string :=
+  filter (fun q => negb (str_in q unlocked_fns) && negb (String.eqb q "createStructDesc")) all_fns.
+(* the construction itself is reached (it would be vacuous otherwise) and createStructDesc is how *)
 Definition locked_closed : bool :=
-  forallb (fun f => subset (callers_of (snd f)) ("createStructDesc" :: locked_fns)) locked_fns_q.
+  str_in "createStructDesc" unlocked_fns && str_in "newTType" locked_fns && str_in "newStructDescAndPrefetch" locked_fns
+  && str_in "rollbackPending" locked_fns && str_in "commitPending" locked_fns.
 
 Definition init_only (ws : list string) : bool :=
   forallb (fun w => String.prefix "init@" w || str_in w ["registerListAppendFunc"; "registerMapAppendFunc"]) ws.
@@ -210,8 +231,9 @@ Definition access_ok : bool :=
   && subset (readers_of "ttypes" globals) locked_fns
   && subset (readers_of "prefetchStructDescCache" globals) locked_fns
   && subset (readers_of "pendingTypes" globals) locked_fns && subset (readers_of "pendingNodes" globals) locked_fns
-  (* the descriptor map is written only by createStructDesc (Set is called nowhere else) *)
-  && subset (callers_of "Set") ["createStructDesc"; "Append"; "EncodedSize"]
+  (* the descriptor map is written only by createStructDesc: any other function calling something
+     named Set (reflect.Value.Set on the scratch copy) does not mention sds *)
+  && forallb (fun c => String.eqb c "createStructDesc" || negb (str_in c (readers_of "sds" globals))) (callers_of "Set")
   (* tType.Sd is assigned only while building under the lock *)
   && subset sd_writers locked_fns
   (* the registration tables and hackErrMsg are written during package init only *)
